@@ -1,13 +1,15 @@
 #!/bin/bash
 # tools/confirmmut.sh <dir with patch_k.diff demo_k.rs> <k> : confirm in a scratch worktree that the
+# (FEAT='--features period_type_u16' for demos that need a feature)
 # patched crate builds, passes the suite, and that the demo fails with / passes without the patch
 D=$1; K=$2
 W=$(mktemp -d /tmp/cm.XXXX)
 git -C /repo worktree add -q --detach $W/wt HEAD
 cd $W/wt && mkdir -p tests && cp $D/demo_$K.rs tests/demo_$K.rs
-cargo test --offline --test demo_$K > $W/clean.log 2>&1; c=$?
+export CARGO_TARGET_DIR=$W/target
+cargo test --offline $FEAT --test demo_$K > $W/clean.log 2>&1; c=$?
 git apply $D/patch_$K.diff || echo "APPLY FAILED"
 cargo test --offline --lib > $W/suite.log 2>&1; s=$?
-cargo test --offline --test demo_$K > $W/mut.log 2>&1; m=$?
+cargo test --offline $FEAT --test demo_$K > $W/mut.log 2>&1; m=$?
 echo "k=$K demo_on_clean_rc=$c suite_with_patch_rc=$s ($(grep 'test result' $W/suite.log | head -1)) demo_with_patch_rc=$m"
 cd /; git -C /repo worktree remove --force $W/wt; rm -rf $W
